@@ -122,6 +122,16 @@ def worker_instance(cfg, tier):
     inst = cfg["inst"]
     nodes, cgr, g = cg.build(inst, node_cls=fixtures.OracleNode)
     obs = []
+    t0 = time.time()
+    try:
+        g.init_record(g.init(jax.random.PRNGKey(1)), params=True, rng=True, inputs=True, state=True, output=True)
+        obs.append(Ob("recording can be switched on for every compiled graph (also when pruning leaves a node out of the supergraph)", "unsat", time.time() - t0, cfg,
+                      trivial=True, replayed=True, key="record-init"))
+    except Exception as ex:  # the real init_record raises on this instance
+        obs.append(Ob("recording can be switched on for every compiled graph (also when pruning leaves a node out of the supergraph)", "sat", time.time() - t0, cfg,
+                      trivial=True, replayed=True, key="record-init", detail=f"{type(ex).__name__}: {ex}",
+                      what=f"Graph.init_record raises {type(ex).__name__}({ex}) on a compiled graph whose supergraph does not contain every node (default prune=True)"))
+        return obs
     for eps in range(g.max_eps):
         gs0 = g.init_record(g.init(jax.random.PRNGKey(1), starting_eps=eps), params=True, rng=True, inputs=True, state=True, output=True)
         calls = cg.UFCalls()
@@ -422,6 +432,7 @@ def run(rep):
     icfg = [dict(inst=i) for i in (_cg.instances(rep.tier, small=True)[:3] if rep.tier == "quick" else _cg.instances(rep.tier))]
     icfg.append(dict(inst=dict(kind="three", rates=(10, 25, 7), windows=(2, 1, 2), ts_max=0.5, mode="mcs")))
     icfg += [dict(inst=i) for i in _cg.random_instances(rep.tier, quick_n=2)]
+    icfg += [dict(inst=dict(kind="sink", mode=m)) for m in (("mcs",) if rep.tier == "quick" else ("mcs", "generational", "topological"))]  # a node that only consumes (pruned)
     rep.configs = rep.configs + icfg
     obs += pmap("props.c13", "worker_instance", icfg, rep.tier)
     rep.add_all(obs)
